@@ -340,6 +340,11 @@ def replay_chain(ctx: Ctx, c: Dict[str, Any], filevec: Dict[str, Any], scratch: 
     world = np.einsum("ij,j...->i...", FV[c["axes"]], data.numpy().astype(float)) if flow else None
     obj: Any = FlowField(data, grid, Axes(c["axes"])) if flow else Image(data, grid)
     cur_axes = c["axes"] if flow else "none"
+    # the representation the vectors of a FILE / SimpleITK image are stored in: world unless sitk(axes=)/write(axes=) named another one;
+    # readers are then told the same representation (read(axes=), from_sitk(axes=))
+    file_axes = sitk_axes = "world"
+    pick = lambda k_: (None, "grid", None, "cube", "cube_corners", None)[(cid + k_) % 6] if flow else None  # noqa: E731
+    akw = lambda a_: {} if a_ is None else {"axes": Axes(a_)}  # noqa: E731
     last_path = None
     done: List[str] = []
     sig0 = dict(part="chain", D=D, multi=C > 1, kind=c["okind"])
@@ -352,28 +357,39 @@ def replay_chain(ctx: Ctx, c: Dict[str, Any], filevec: Dict[str, Any], scratch: 
             if a == "write":
                 last_path = os.path.join(scratch, f"c{cid}_{k}{EXT[st['f']]}")
                 if st["who"] == "deepali":
-                    if (cid + k) % 3 == 0:  # the URI form of the same entry point
-                        obj.to_uri(("file://" + last_path) if (cid + k) % 2 else last_path, compress=bool(st["compress"]))
+                    if (cid + k) % 3 == 0 or not flow:  # the URI form of the same entry point
+                        if (cid + k) % 3 == 0:
+                            obj.to_uri(("file://" + last_path) if (cid + k) % 2 else last_path, compress=bool(st["compress"]))
+                        else:
+                            obj.write(last_path, compress=bool(st["compress"]))
+                        file_axes = "world"
                     else:
-                        obj.write(last_path, compress=bool(st["compress"]))
+                        obj.write(last_path, compress=bool(st["compress"]), **akw(pick(k)))
+                        file_axes = pick(k) or "world"
                 else:
                     sitk.WriteImage(obj, last_path, bool(st["compress"]))
+                    file_axes = sitk_axes
             elif a == "read":
                 if st["who"] == "deepali":
                     if (cid + k) % 3 == 0:
                         obj = (FlowField if flow else Image).from_uri(last_path, align_corners=ac)
                         if flow:
                             obj = FlowField.from_image(obj, axes=Axes.WORLD) if not isinstance(obj, FlowField) else obj
+                        if flow and file_axes != "world":  # (from_uri has no axes argument: the stored vectors are relabelled)
+                            obj = FlowField(obj.tensor(), obj.grid(), Axes(file_axes))
                     else:
-                        obj = (FlowField if flow else Image).read(last_path, align_corners=ac)
+                        obj = (FlowField if flow else Image).read(last_path, align_corners=ac, **(akw(file_axes) if flow and file_axes != "world" else {}))
                 else:
                     obj = sitk.ReadImage(last_path)
-                cur_axes = "world" if flow else "none"
+                    sitk_axes = file_axes
+                cur_axes = file_axes if flow else "none"
             elif a == "to_sitk":
-                obj = obj.sitk()
-                cur_axes = "world" if flow else "none"
+                obj = obj.sitk(**akw(pick(k))) if flow else obj.sitk()
+                sitk_axes = (pick(k) or "world") if flow else "world"
+                cur_axes = sitk_axes if flow else "none"
             elif a == "from_sitk":
-                obj = (FlowField if flow else Image).from_sitk(obj, align_corners=ac)
+                obj = (FlowField if flow else Image).from_sitk(obj, align_corners=ac, **(akw(sitk_axes) if flow and sitk_axes != "world" else {}))
+                cur_axes = sitk_axes if flow else "none"
             elif a == "axes":
                 obj = obj.axes(Axes(st["who"]))
                 cur_axes = st["who"]
